@@ -1,7 +1,7 @@
 (* C19  asyncio adapter stays consistent under any event-loop schedule (model level; see docs/C19.md).
    fx = the checked tree has the repair of finding F4 (transmit() drains the event queue after sending); the
    harness probes it on the running code.  The adapter theorems hold for both values. *)
-From AQ Require Import lib.Base model.Adapter model.Router model.ServerComp proofs.AdapterProofs proofs.RouterProofs proofs.ServerCompProofs.
+From AQ Require Import lib.Base model.Adapter model.Router model.ServerComp proofs.AdapterProofs proofs.RouterProofs proofs.ServerCompProofs proofs.AdapterReaderProofs.
 
 (* waiter_exactly_once, part 1: for every sequence of callbacks, API calls and event lists, no step ever
    resolves a future twice (set_result/set_exception never raises InvalidStateError). *)
@@ -160,3 +160,16 @@ Theorem announced_cid_unroutable_without_repair :
   t_get 7 (s_tbl (srun true sst_init f4_trace)) = Some 0.
 Proof. exact announced_cid_unroutable_without_repair_l. Qed.
 Print Assumptions announced_cid_unroutable_without_repair.
+
+(* reader_prefix_then_eof: for every schedule and both trees, with lg the history of the run (the events
+   _process_events() popped, in order, handled or raised, and the create_stream() calls): the reader of stream sid
+   holds exactly what the specification computes from lg alone -- the concatenation, in order, of the data of the
+   StreamDataReceived(sid) events handled since the reader was created; at EOF iff an end marker or
+   ConnectionTerminated was handled (or it was created after termination) --, and no event fed bytes to a reader
+   already at EOF (rs_bad = false: such a feed_data raises and feeds nothing). *)
+Theorem reader_prefix_then_eof : forall fx ops sid,
+  let lg := fst (hrun fx st_init [] ops) in
+  let s := run fx st_init ops in
+  view sid s = rs_rd (spec sid lg) /\ rs_bad (spec sid lg) = false /\ rs_term (spec sid lg) = closed s.
+Proof. exact reader_prefix_then_eof_l. Qed.
+Print Assumptions reader_prefix_then_eof.
